@@ -12,6 +12,7 @@ import traceback
 from . import sandbox
 
 VERIF = sandbox.VERIF
+OUT = os.environ.get('MC_OUT') or VERIF     # mutant runs write evidence/replays elsewhere
 KNOWN_FILE = os.path.join(VERIF, 'KNOWN_FINDINGS.txt')
 
 
@@ -203,8 +204,8 @@ class Result:
             'coverage': cov, 'assumptions': self.assumptions,
             'wall_s': round(time.time() - self.t0, 3), 'violations': len(new),
         }
-        os.makedirs(os.path.join(VERIF, 'evidence'), exist_ok=True)
-        path = os.path.join(VERIF, 'evidence', f'{self.prop}.json')
+        os.makedirs(os.path.join(OUT, 'evidence'), exist_ok=True)
+        path = os.path.join(OUT, 'evidence', f'{self.prop}.json')
         tmp = path + f'.{os.getpid()}.tmp'
         with open(tmp, 'w', encoding='utf-8') as f:
             json.dump(ev, f, indent=1, sort_keys=True, ensure_ascii=False)
@@ -233,7 +234,7 @@ class Result:
 
 
 def write_replay(prop, tier, j):
-    d = os.path.join(VERIF, 'replays', prop)
+    d = os.path.join(OUT, 'replays', prop)
     os.makedirs(d, exist_ok=True)
     body = json.dumps({'property': prop, 'tier': tier, **j}, indent=1, sort_keys=True,
                       ensure_ascii=False, default=repr)
